@@ -37,6 +37,7 @@ def lex(src):
 class P:
     def __init__(self, toks):
         self.t, self.i = toks, 0
+        self.item_errors = []
 
     # -- token helpers
     def peek(self, k=0):
@@ -80,6 +81,34 @@ class P:
                 d += 1
             elif k == 'op' and v == c:
                 d -= 1
+            self.i += 1
+
+    def item_name(self):
+        j = self.i
+        while j < len(self.t) and j < self.i + 8:
+            if self.t[j][1] in ('fn', 'const', 'static', 'struct', 'enum', 'impl') and j + 1 < len(self.t):
+                return '%s %s' % (self.t[j][1], self.t[j + 1][1])
+            j += 1
+        return self.t[self.i][1] if self.i < len(self.t) else 'eof'
+
+    def skip_item(self):
+        """advance past one item: to the ';' or the end of the first '{...}' at nesting depth 0"""
+        d = 0
+        while True:
+            k, v = self.peek()
+            if k == 'eof':
+                return
+            if k == 'op' and v in ('(', '['):
+                d += 1
+            elif k == 'op' and v in (')', ']'):
+                d -= 1
+            elif k == 'op' and v == ';' and d == 0:
+                self.i += 1
+                return
+            elif k == 'op' and v == '{' and d == 0:
+                self.skip_balanced('{', '}')
+                self.eat(';')
+                return
             self.i += 1
 
     def skip_generics(self):
@@ -143,23 +172,33 @@ class P:
                     self.skip_balanced('{', '}')
                 self.eat(';')
                 continue
-            if v == 'const' and self.peek(1)[1] != 'fn':
-                out.append(self.const_())
-                continue
-            if v == 'static':
-                out.append(self.static_())
-                continue
-            if v in ('const', 'unsafe', 'fn', 'async'):
-                out.append(self.fn_())
-                continue
-            if v == 'struct':
-                out.append(self.struct_())
-                continue
-            if v == 'enum':
-                out.append(self.enum_())
-                continue
-            if v == 'impl':
-                out.append(self.impl_())
+            start = self.i
+            try:
+                if v == 'const' and self.peek(1)[1] != 'fn':
+                    out.append(self.const_())
+                    continue
+                if v == 'static':
+                    out.append(self.static_())
+                    continue
+                if v in ('const', 'unsafe', 'fn', 'async'):
+                    out.append(self.fn_())
+                    continue
+                if v == 'struct':
+                    out.append(self.struct_())
+                    continue
+                if v == 'enum':
+                    out.append(self.enum_())
+                    continue
+                if v == 'impl':
+                    out.append(self.impl_())
+                    continue
+                if k == 'id' and v.endswith('!'):
+                    raise Unsupported('item %r' % v)
+            except Unsupported as e:
+                # one item outside the supported subset does not take the rest of the file with it
+                self.i = start
+                self.item_errors.append('%s: %s' % (self.item_name(), e))
+                self.skip_item()
                 continue
             if v == 'trait':
                 self.i += 1
@@ -167,7 +206,11 @@ class P:
                     self.i += 1
                 self.skip_balanced('{', '}')
                 continue
-            raise Unsupported('item %r' % v)
+            self.item_errors.append('%s: item outside the supported subset' % self.item_name())
+            before = self.i
+            self.skip_item()
+            if self.i == before:
+                self.i += 1
         return out
 
     def const_(self):
@@ -256,13 +299,19 @@ class P:
                 if self.at('('):
                     self.skip_balanced('(', ')')
             k, v = self.peek()
-            if v == 'const' and self.peek(1)[1] != 'fn':
-                body.append(self.const_())
-            elif v == 'type':
-                while not self.eat(';'):
-                    self.i += 1
-            else:
-                body.append(self.fn_())
+            start = self.i
+            try:
+                if v == 'const' and self.peek(1)[1] != 'fn':
+                    body.append(self.const_())
+                elif v == 'type':
+                    while not self.eat(';'):
+                        self.i += 1
+                else:
+                    body.append(self.fn_())
+            except Unsupported as e:
+                self.i = start
+                self.item_errors.append('%s: %s' % (self.item_name(), e))
+                self.skip_item()
         return ('impl', re.sub(r'\s*<.*', '', a).strip(), trait, body)
 
     def fn_(self):
@@ -681,3 +730,10 @@ def num_suffix(v):
 
 def parse_file(src):
     return P(lex(src)).items()
+
+
+def parse_file2(src):
+    """-> (items, [what could not be parsed: 'fn name: why'])"""
+    p = P(lex(src))
+    items = p.items()
+    return items, p.item_errors
